@@ -288,6 +288,7 @@ type docProfile struct {
 	NumHeavy  bool
 	StrHeavy  bool
 	UniqueKey bool // force unique keys in every object
+	Spine     bool // add one deeply nested member (20..270 levels) to the root
 }
 
 var (
@@ -297,6 +298,7 @@ var (
 	profUniq   = docProfile{Name: "uniq", MaxDepth: 4, MaxWidth: 7, Budget: 40, KeyAlpha: 11, UniqueKey: true}
 	profStr    = docProfile{Name: "strings", MaxDepth: 3, MaxWidth: 8, Budget: 40, RichStr: true, StrHeavy: true}
 	profNum    = docProfile{Name: "numbers", MaxDepth: 3, MaxWidth: 10, Budget: 50, NumHeavy: true}
+	profDeep   = docProfile{Name: "deep", MaxDepth: 3, MaxWidth: 4, Budget: 10, KeyAlpha: 6, Spine: true}
 )
 
 var keyAlphabet = []string{"a", "b", "", "ab", "ba", "aa", strings.Repeat("k", 64), strings.Repeat("L", 63) + "-long-key-beyond-64-bytes", "c", "abc", "k\\u0041", "\\n", "é", "a b"}
@@ -310,7 +312,30 @@ type docGen struct {
 func genDoc(t *rapid.T, p docProfile) *rj.Node {
 	g := &docGen{t: t, p: p, budget: p.Budget}
 	isObj := rapid.Bool().Draw(t, "rootObj")
-	return g.container(isObj, 1)
+	root := g.container(isObj, 1)
+	if p.Spine {
+		// one member of the root is a spine of nested containers around the depths at which fixed-size scope stacks
+		// (128 entries) would wrap, with small siblings on the way down and members after it
+		d := []int{rapid.IntRange(120, 140).Draw(t, "spine"), rapid.IntRange(250, 270).Draw(t, "spine2"), rapid.IntRange(20, 119).Draw(t, "spine3")}[rapid.IntRange(0, 2).Draw(t, "spinesel")]
+		inner := &rj.Node{K: rj.Obj, O: []rj.Member{{Key: []byte("x"), KeySrc: []byte("x"), Val: &rj.Node{K: rj.Num, Lit: "1"}}}}
+		for i := 0; i < d; i++ {
+			switch rapid.IntRange(0, 5).Draw(t, "spinekind") {
+			case 0:
+				inner = &rj.Node{K: rj.Obj, O: []rj.Member{{Key: []byte("k"), KeySrc: []byte("k"), Val: inner}}}
+			case 1:
+				inner = &rj.Node{K: rj.Arr, A: []*rj.Node{{K: rj.Bool, B: true}, inner, {K: rj.Null}}}
+			default:
+				inner = &rj.Node{K: rj.Arr, A: []*rj.Node{inner}}
+			}
+		}
+		tail := &rj.Node{K: rj.Bool, B: true}
+		if root.K == rj.Obj {
+			root.O = append(root.O, rj.Member{Key: []byte("deep"), KeySrc: []byte("deep"), Val: inner}, rj.Member{Key: []byte("after"), KeySrc: []byte("after"), Val: tail})
+		} else {
+			root.A = append(root.A, inner, tail)
+		}
+	}
+	return root
 }
 
 func (g *docGen) key(used map[string]bool) (src, out []byte) {
